@@ -29,7 +29,7 @@ ASSUMPTIONS = [
 
 PARAMS = ["count", "start_size", "end_size", "c2c_expansion", "total_expansion"]
 PAIRS = list(itertools.combinations(PARAMS, 2))
-NEAR_ONE = [0.0, 3e-8, -3e-8, 9e-8, -9e-8, 1.1e-7, -1.1e-7, 1e-6, -1e-6]
+NEAR_ONE = [0.0, 3e-8, -3e-8, 9e-8, -9e-8, 1.1e-7, -1.1e-7, 3e-7, -3e-7, 6e-7, -6e-7, 1e-6, -1e-6, 1.2e-6, -1.2e-6]
 
 
 def truth(L, n, r):
